@@ -256,6 +256,14 @@ Definition scalar_param_ty (x64 : bool) (p : spath) (t : ty) : ty :=
   end.
 Definition scalar_pinfo (x64 : bool) (p : spath) (t : ty) : pinfo := mkPinfo (scalar_param_ty x64 p t) [] [].
 
+(* qu_rotations._cos_sin_2angles(angles, like = x.q): cos / sin (2 * angles), of type t, are CAST to the dtype of the
+   Q leaf they multiply when that dtype is inexact (a strongly typed array of the data's dtype: angles wider than the
+   data no longer promote Q and U); for integer / boolean data the factors keep their own type *)
+Definition rot_ty (x64 : bool) (t : ty) (q : sds) : ty :=
+  match sd_dt q with
+  | Some d => if ST.is_float d || ST.is_complex d then ST.mkTy (ST.canon x64 d) false else t
+  | None => t
+  end.
 (* q * c -+ u * s for Stokes leaves q, u and trigonometric factors of type t and shape ash *)
 Definition rot_leaf (x64 : bool) (t : ty) (ash : list nat) (q u : sds) : option sds :=
   match sd_mulb x64 t ash q, sd_mulb x64 t ash u with
@@ -268,17 +276,17 @@ Definition rot_eval (x64 : bool) (p : pinfo) (s : struct) : option struct :=
   match s with
   | Node (KStokes 1) [Leaf _] => Some s
   | Node (KStokes 2) [Leaf q; Leaf u] =>
-      match rot_leaf x64 t ash q u, rot_leaf x64 t ash q u with
+      match rot_leaf x64 (rot_ty x64 t q) ash q u, rot_leaf x64 (rot_ty x64 t q) ash q u with
       | Some q', Some u' => Some (Node (KStokes 2) [Leaf q'; Leaf u'])
       | _, _ => None
       end
   | Node (KStokes 3) [Leaf i; Leaf q; Leaf u] =>
-      match rot_leaf x64 t ash q u with
+      match rot_leaf x64 (rot_ty x64 t q) ash q u with
       | Some q' => Some (Node (KStokes 3) [Leaf i; Leaf q'; Leaf q'])
       | None => None
       end
   | Node (KStokes 4) [Leaf i; Leaf q; Leaf u; Leaf v] =>
-      match rot_leaf x64 t ash q u with
+      match rot_leaf x64 (rot_ty x64 t q) ash q u with
       | Some q' => Some (Node (KStokes 4) [Leaf i; Leaf q'; Leaf q'; Leaf v])
       | None => None
       end
@@ -537,9 +545,11 @@ Section XEval.
     match sd_ty sd with Some u => ty_eqb (ST.promote2 x64 t u) u | None => false end.
   Definition shape_absorbs (psh : list nat) (sd : sds) : bool :=
     match ST.bshape (s_shape sd) psh with Some sh => list_eqb Nat.eqb sh (s_shape sd) | None => false end.
+  (* the factors are cast to the dtype of inexact data (`rot_ty`): the dtype of the ANGLES then does not matter - only
+     integer / boolean data are widened by the (floating-point) factors *)
   Definition rot_ok (p : pinfo) (s : struct) : bool :=
     let t := trig_ty x64 (pi_ty p) in
-    let ok (q u : sds) := sds_eqb q u && absorbs t q && shape_absorbs (pi_shape p) q && sd_avail x64 q in
+    let ok (q u : sds) := sds_eqb q u && absorbs (rot_ty x64 t q) q && shape_absorbs (pi_shape p) q && sd_avail x64 q in
     match s with
     | Node (KStokes 1) [Leaf _] => true
     | Node (KStokes 2) [Leaf q; Leaf u] => ok q u
@@ -566,7 +576,8 @@ Section XEval.
 
   (* `params_not_wider`: the array parameters of the operators of the @square family (scalar value,
      diagonal values, Toeplitz band values, rotation angles) broadcast INTO the input leaves - in
-     shape and in dtype - so that mv cannot return something wider than the declared structure.
+     shape and in dtype (rotation angles on inexact data: in shape only, mv casts the factors to the dtype of the
+     data) - so that mv cannot return something wider than the declared structure.
      For the other leaf classes out_structure() is the abstract evaluation itself; the Prim term then
      only has to carry it (`so` = what the class rule computes, where the model has a class rule). *)
   Fixpoint params_not_wider (e : op) : bool :=
